@@ -26,7 +26,8 @@ pub fn session_config(four: bool, ap: &str) -> SessionConfig {
 }
 
 fn g<T>(f: impl FnOnce() -> Result<T, ParseError>, show: impl FnOnce(T) -> String) -> String {
-    match guard(f) { None => "PANIC".into(), Some(Err(_)) => "E".into(), Some(Ok(v)) => show(v) }
+    // both the accessor and the consumption of what it returns (iterators!) run under catch_unwind
+    match guard(|| f().map(show)) { None => "PANIC".into(), Some(Err(_)) => "E".into(), Some(Ok(s)) => s }
 }
 
 fn nlri_hex<O: AsRef<[u8]>>(n: &Nlri<O>) -> String { let mut v = Vec::new(); n.compose(&mut v).unwrap(); hex(&v) }
